@@ -90,3 +90,55 @@ Example ex_dup_export : boundary_ok [ {| sym := 1; env := [] |} ] [ {| sym := 1;
 Proof. reflexivity. Qed.
 Example ex_unimported : boundary_ok [ {| sym := 1; env := [] |} ] [ {| sym := 1; env := [] |}; {| sym := 3; env := [] |} ] = false.
 Proof. reflexivity. Qed.
+
+(* ---- completeness: the validator raises no alarm on a boundary that is fine ---- *)
+
+Theorem code_ok_complete mc cc : (forall s c, In (s, c) mc <-> In (s, c) cc) -> code_ok mc cc = true.
+Proof.
+  intros H. unfold code_ok. rewrite andb_true_iff, !forallb_forall. split.
+  - intros [s c] Hin. apply existsb_exists. exists (s, c). split; [apply H; exact Hin|].
+    cbn [fst snd]. rewrite !N.eqb_refl. reflexivity.
+  - intros [s c] Hin. apply existsb_exists. exists (s, c). split; [apply H; exact Hin|].
+    cbn [fst snd]. rewrite !N.eqb_refl. reflexivity.
+Qed.
+
+Lemma count_zero s l : (forall y, In y l -> sym y <> s) -> count_sym s l = 0%nat.
+Proof.
+  unfold count_sym. induction l as [|x l IH]; intros H; [reflexivity|]. cbn [filter].
+  destruct (sym x =? s) eqn:E.
+  - apply N.eqb_eq in E. exfalso. apply (H x); [left; reflexivity | exact E].
+  - apply IH. intros y Hy. apply H. right. exact Hy.
+Qed.
+
+Lemma count_unique l : forall a, NoDup l -> In a l ->
+  (forall x, In x l -> sym x = sym a -> x = a) -> count_sym (sym a) l = 1%nat.
+Proof.
+  induction l as [|x l IH]; intros a Hnd Ha Hu; [inversion Ha|].
+  inversion Hnd as [|? ? Hx Hl]; subst.
+  destruct (sym x =? sym a) eqn:E.
+  - apply N.eqb_eq in E. assert (x = a) by (apply Hu; [left; reflexivity | exact E]). subst x.
+    unfold count_sym. cbn [filter]. rewrite N.eqb_refl. cbn [length]. f_equal.
+    apply (count_zero (sym a) l). intros y Hy Hs.
+    assert (y = a) by (apply Hu; [right; exact Hy | exact Hs]). subst y. contradiction.
+  - assert (Ha' : In a l).
+    { destruct Ha as [->|Ha]; [rewrite N.eqb_refl in E; discriminate | exact Ha]. }
+    unfold count_sym. cbn [filter]. rewrite E.
+    apply (IH a Hl Ha'). intros y Hy Hs. apply Hu; [right; exact Hy | exact Hs].
+Qed.
+
+Theorem boundary_ok_complete imports exports :
+  NoDup imports -> NoDup exports -> Bijective imports exports -> boundary_ok imports exports = true.
+Proof.
+  intros Hni Hne [HI HE]. unfold boundary_ok. rewrite andb_true_iff, !forallb_forall. split.
+  - intros i Hi. destruct (HI i Hi) as (e & He & Hs & Hv & Hu). rewrite !andb_true_iff. repeat split.
+    + apply Nat.eqb_eq. rewrite <- Hs. apply (count_unique exports e Hne He).
+      intros x Hx Hsx. apply Hu; [exact Hx | congruence].
+    + apply existsb_exists. exists e. split; [exact He|]. apply matches_spec. split; congruence.
+    + apply Nat.eqb_eq. destruct (HE e He) as (i0 & Hi0 & Hs0 & _ & Hu0).
+      assert (i = i0) by (apply Hu0; [exact Hi | congruence]). subst i0.
+      apply (count_unique imports i Hni Hi). intros x Hx Hsx.
+      transitivity i; [|reflexivity]. apply Hu0; [exact Hx | congruence].
+  - intros e He. apply Nat.eqb_eq. destruct (HE e He) as (i & Hi & Hs & _ & Hu).
+    rewrite <- Hs. apply (count_unique imports i Hni Hi). intros x Hx Hsx.
+    apply Hu; [exact Hx | congruence].
+Qed.
